@@ -331,6 +331,9 @@ func withBlanks(g func(t *rapid.T) *ProgCase) func(t *rapid.T) *ProgCase {
 		if !c.Print.Newlines {
 			c.Print.Blank = pick2(t, []string{"", "", "", "  ", "\t", "\r", " \r "})
 		}
+		// white space before the first and after the last token: part of the source given
+		c.Print.Pad = pick2(t, []string{"", "", "", " ", "   ", "\t", " \t"})
+		c.Print.Trail = pick2(t, []string{"", "", "", " ", "  ", "\t"})
 		return c
 	}
 }
@@ -369,7 +372,7 @@ var c19apiOpt = gen.ProgOpt{Fuel: 4, Partial: true, Sugar: true, Maybe: true, Ti
 var c19api = Register(&Prop[ProgCase]{ID: "C19", Name: "debug-api", Gen: withBlanks(genProgCase(c19apiOpt, nil)), Check: checkC19})
 
 func TestC19(t *testing.T) {
-	R.Rule = "accepted single-line programs (ASCII and non-ASCII identifiers and strings, a user-registered postfix operator whose token follows its operand, blanks / tabs / carriage returns between tokens, sugar, unevaluated lazy branches, failing operands) over conforming environments; oracle: (a) yae.Debug returns the same value / failure as Eval and the reference, and its report - after a value and after a failure alike - has the source as first line, shows recorded values and equals the rendering of the record of route (b), with the environment as a Go struct and again as map[string]interface{} after a call with the same source over a differently typed map of the same Go type; (b) closure.DebugCompile with a debug.Record read through the hook records exactly the reference evaluator's evaluated variable / call / member / subscript terms, in completion order, each with its value and the column of its own token + 1 (identifier start, operator token, '(' of a call, '.', '['); (c) Render does not fail, its first line is the source and every recorded value appears at its column on a later line (a value whose text has line breaks on consecutive lines, every piece at that column); (d) a second and third evaluation of the same compiled expression with the same record give the same entries and report; non-trivial = >= 3 recorded terms and an unevaluated branch, a non-ASCII rune before a recorded term, or two values competing for a line"
+	R.Rule = "accepted single-line programs (ASCII and non-ASCII identifiers and strings, a user-registered postfix operator whose token follows its operand, blanks / tabs / carriage returns between tokens and before the first / after the last token, sugar, unevaluated lazy branches, failing operands) over conforming environments; oracle: (a) yae.Debug returns the same value / failure as Eval and the reference, and its report - after a value and after a failure alike - has the source as first line, shows recorded values and equals the rendering of the record of route (b), with the environment as a Go struct and again as map[string]interface{} after a call with the same source over a differently typed map of the same Go type; (b) closure.DebugCompile with a debug.Record read through the hook records exactly the reference evaluator's evaluated variable / call / member / subscript terms, in completion order, each with its value and the column of its own token + 1 (identifier start, operator token, '(' of a call, '.', '['); (c) Render does not fail, its first line is the source and every recorded value appears at its column on a later line (a value whose text has line breaks on consecutive lines, every piece at that column); (d) a second and third evaluation of the same compiled expression with the same record give the same entries and report; non-trivial = >= 3 recorded terms and an unevaluated branch, a non-ASCII rune before a recorded term, or two values competing for a line"
 	R.Assume = []string{"ref.Eval's completion order; model.Print's token positions; lazy functions that force a thunk twice (lz_pick) are outside the domain (one term, two evaluations)"}
 	reportKnown(t, "C19")
 	runRegress(t, "C19")
